@@ -102,6 +102,8 @@ def run_one(mod, sc, ctx):
     """run one scenario under the watchdog; exceptions escaping the *check* are harness errors,
     exceptions escaping mofun are turned into violations by the check itself"""
     signal.setitimer(signal.ITIMER_REAL, SCENARIO_TIMEOUT)
+    if os.environ.get('VERIF_TRACE'):
+        open('/tmp/verif-trace-%d' % os.getpid(), 'w').write(repr(sc))
     try:
         return mod.run(sc, ctx)
     except ScenarioTimeout:
